@@ -38,7 +38,7 @@ class Exec(object):
     # ------------------------------------------------------------ utilities
     def default_unroll(self, n, fr):
         """a loop without a sidecar invariant: bounded unrolling (recorded, never counted as proved)"""
-        return 3
+        return 2
 
     def val(self, v, st):
         return [('val', v, st)]
@@ -174,6 +174,8 @@ class Exec(object):
     def exec_block(self, stmts, st, fr):
         outs = [('next', None, st)]
         for s in stmts:
+            if len(outs) > 3000:
+                raise Unsupported('path explosion (> 3000 live paths) in %s' % fr.funcname)
             new = []
             for k, v, s1 in outs:
                 if k != 'next':
